@@ -166,7 +166,11 @@ def ids_step(c0: bool, c1: bool, c2: bool, c3: bool, cn: bool, j: int) -> bool:
         # (partition 'foreign': the newcomer was built for ANOTHER model - e.g. it migrates between two simulations;
         # what counts is the environment it joins)
         home = Model() if hx.P.get('foreign') else m
-        new = Agent("new" if j < 0 else target_id, home)
+        if hx.P.get('nested_newcomer'):
+            # environments are agents too: a sub-environment (a nest, a patch) carrying a component joins like any agent
+            new = Environment(home, id="new" if j < 0 else target_id)
+        else:
+            new = Agent("new" if j < 0 else target_id, home)
         if cn:
             new.add_component(T1(new, home))
         snap = _snapshot(m, env, ref + [new])
@@ -519,6 +523,7 @@ def obligations(tier):
     parts += [{"r": 2, "op": op, "world": w, "alias": True} for w in ("plain", "space") for op in ("add", "remove", "get", "get_strict")]
     parts += [{"r": 2, "op": op, "world": w, "completed": True} for w in ("plain", "space") for op in ("add", "remove")]
     parts += [{"r": 2, "op": "add", "world": w, "foreign": True} for w in ("plain", "space")]
+    parts += [{"r": 2, "op": op, "world": "plain", "nested_newcomer": True} for op in ("add",)]
     if tier != "quick":
         parts += [{"r": r, "op": op, "world": "plain"} for r in (1, 3) for op in ("add", "remove", "get", "get_strict")]
         parts += [{"r": 2, "op": op, "world": w} for w in ("line", "discrete", "gridlike") for op in ("add", "remove")]
